@@ -508,12 +508,12 @@ pub fn check(tier: Tier) -> Check {
         ],
         deciding: vec!["C04"],
         streams: vec![
-            Stream::new("faults", tier.pick(400, 20_000), faults_scenario),
-            Stream::new("chain", tier.pick(60, 1200), chain_scenario),
-            Stream::new("edge", tier.pick(40, 400), edge_scenario),
+            Stream::new("faults", tier.pick(2000, 40_000), faults_scenario),
+            Stream::new("chain", tier.pick(200, 2400), chain_scenario),
+            Stream::new("edge", tier.pick(80, 800), edge_scenario),
         ],
         require: vec![
-            ("searches", tier.pick(700, 30_000)),
+            ("searches", tier.pick(2500, 50_000)),
             ("silent_searches", tier.pick(40, 2000)),
             ("answers_just_in_time_accepted", tier.pick(100, 5000)),
             ("answers_just_late_ignored", tier.pick(100, 5000)),
